@@ -38,15 +38,16 @@ type verifNet struct {
 }
 
 // answer draws one origin behaviour: status (0 = no response), number of body
-// bytes delivered before the connection drops (len(blob) = complete body).
-func (n *verifNet) answer() (status, k int) {
+// bytes delivered before the connection drops (len(blob) = complete body) and
+// the framing of a 200 response (Content-Length or chunked).
+func (n *verifNet) answer() (status, k int, chunked bool) {
 	n.attempts++
 	if verif.Symbolic() {
 		verif.Assume(n.attempts <= n.max) // bound of the run (a native handler thread must not panic)
 	}
 	switch verif.Choice("origin_outcome", 4) {
 	case 0:
-		return 200, len(n.blob)
+		return 200, len(n.blob), verif.Bool("chunked_response")
 	case 1:
 		status = verif.IntRange("status", 201, 599) // final statuses other than 200
 		if status == 202 {
@@ -55,11 +56,14 @@ func (n *verifNet) answer() (status, k int) {
 				verif.Assume(n.accepted <= n.maxAccept)
 			}
 		}
-		return status, 0
+		return status, 0, false
 	case 2:
-		return 0, 0
+		return 0, 0, false
 	}
-	return 200, verif.Len("bytes_before_drop", 0, len(n.blob)-1)
+	// 200, then the connection is closed after k body bytes. The response is
+	// framed by Content-Length or streamed with chunked transfer encoding (what
+	// the origin does for blobs larger than its write buffer).
+	return 200, verif.Len("bytes_before_drop", 0, len(n.blob)-1), verif.Bool("chunked_response")
 }
 
 type verifDroppingBody struct {
@@ -70,7 +74,9 @@ type verifDroppingBody struct {
 func (b *verifDroppingBody) Read(p []byte) (int, error) {
 	if len(b.data) == 0 {
 		if b.fail {
-			return 0, errors.New("unexpected EOF")
+			// what net/http reports for a body cut short by a closed connection,
+			// for both framings (transfer.go body.readLocked, chunked.go)
+			return 0, io.ErrUnexpectedEOF
 		}
 		return 0, io.EOF
 	}
@@ -97,13 +103,18 @@ func VerifModelHTTPNewRequestWithContext(ctx context.Context, method, rawurl str
 
 func VerifModelHTTPClientDo(c *http.Client, req *http.Request) (*http.Response, error) {
 	n := verifTheNet
-	status, k := n.answer()
+	status, k, chunked := n.answer()
 	if status == 0 {
 		return nil, &url.Error{Op: "Get", URL: req.URL.String(), Err: errors.New("connection refused")}
 	}
 	resp := &http.Response{StatusCode: status, Header: http.Header{}, Request: req, Body: &verifDroppingBody{}}
 	if status == 200 {
 		resp.Body = &verifDroppingBody{data: n.blob[:k], fail: k < len(n.blob)}
+		resp.ContentLength = int64(len(n.blob))
+		if chunked {
+			resp.ContentLength = -1
+			resp.TransferEncoding = []string{"chunked"}
+		}
 	}
 	return resp, nil
 }
@@ -111,7 +122,7 @@ func VerifModelHTTPClientDo(c *http.Client, req *http.Request) (*http.Response, 
 // ServeHTTP: the native counterpart of the model network.
 func (n *verifNet) ServeHTTP(w http.ResponseWriter, r *http.Request) {
 	n.mu.Lock()
-	status, k := n.answer()
+	status, k, chunked := n.answer()
 	n.mu.Unlock()
 	if status == 0 {
 		if c, _, err := w.(http.Hijacker).Hijack(); err == nil {
@@ -124,16 +135,29 @@ func (n *verifNet) ServeHTTP(w http.ResponseWriter, r *http.Request) {
 		return
 	}
 	if k == len(n.blob) {
+		if chunked {
+			w.(http.Flusher).Flush() // headers go out without Content-Length: chunked
+		}
 		w.Write(n.blob)
 		return
 	}
-	// promise the whole blob, deliver k bytes, drop the connection
+	// promise the whole blob, deliver k bytes, close the connection
 	c, bw, err := w.(http.Hijacker).Hijack()
 	if err != nil {
 		return
 	}
-	bw.WriteString("HTTP/1.1 200 OK\r\nContent-Length: " + string(rune('0'+len(n.blob))) + "\r\n\r\n")
-	bw.Write(n.blob[:k])
+	if chunked {
+		bw.WriteString("HTTP/1.1 200 OK\r\nTransfer-Encoding: chunked\r\n\r\n")
+		if k > 0 {
+			bw.WriteString(string(rune('0'+k)) + "\r\n")
+			bw.Write(n.blob[:k])
+			bw.WriteString("\r\n")
+		}
+		// no terminating zero-length chunk
+	} else {
+		bw.WriteString("HTTP/1.1 200 OK\r\nContent-Length: " + string(rune('0'+len(n.blob))) + "\r\n\r\n")
+		bw.Write(n.blob[:k])
+	}
 	bw.Flush()
 	c.Close()
 }
